@@ -165,6 +165,52 @@ def r8(ctx):
 STATUS_CLASS = {100: "1xx", 101: "1xx", 199: "1xx", 200: "other", 204: "204", 304: "304", 404: "other", 500: "other"}
 
 
+def write_table(ctx, rid):
+    """Response.write evaluated over (Content-Length, bytes sent, len(arg), chunked): bytes put on the wire, the
+    chunk flag, and the byte accounting (`self.sent`) that the access log reports"""
+    repo = ctx.repo
+    f_w = ctx.fn(repo.func(RESP + ".write"))
+    K_CL, K_CH = "self.response_length", "self.chunked"
+    sends_w = _send_calls(repo, f_w)
+    ctx.need(sends_w, "%s: no socket send found in Response.write" % rid)
+    # ---- write() table: never exceed Content-Length, skip empty chunks, account bytes
+    K_SENT = "self.sent"
+    ARG = f_w.params[1]
+    wrows = []
+    for rl in (None, 0, 5, 10):
+        for sent in (0, 3, 5, 10, 12):
+            for n in (0, 1, 5, 20):
+                for ch in (False, True):
+                    if ch and rl is not None:
+                        continue
+                    payload = bytes(range(65, 65 + n))
+                    probes = {}
+                    for c, node in [(c, nd) for c in sends_w for nd in nodes_with(f_w, c)]:
+                        probes[node.id] = ("sent-bytes", (lambda ex, env, c=c: (ex.ev(_payload_arg(c), env), ex.ev(_chunk_arg(c), env))))
+                    ex = Explorer(f_w, atom_of=call_atom(repo, f_w), tracked=[K_SENT, ARG])
+                    outs = ex.run(f_w.cfg.entry, {K_CL: rl, K_SENT: sent, ARG: payload, K_CH: ch}, probes=probes)
+                    allowed = n if rl is None else min(n, max(rl - sent, 0))
+                    for o in outs:
+                        if o.kind != "return":
+                            continue
+                        sends = [e[1] for e in o.events if isinstance(e, tuple) and e[0] == "sent-bytes"]
+                        got = b"".join(x[0] for x in sends if isinstance(x, tuple) and isinstance(x[0], bytes)) if all(isinstance(x, tuple) and isinstance(x[0], bytes) for x in sends) else None
+                        flags = [x[1] for x in sends if isinstance(x, tuple)]
+                        after = o.env.get(K_SENT)
+                        okk = got is not None and got == payload[:allowed] and (not sends or not (ch and len(got) == 0)) and after == sent + allowed \
+                            and all(fl == ch for fl in flags)
+                        wrows.append({"content_length": rl, "sent_before": sent, "len(arg)": n, "chunked": ch, "bytes_sent": None if got is None else len(got),
+                                      "sent_after": after if after is not UNKNOWN else "U", "required_bytes": allowed})
+                        why = "Response.write with Content-Length=%s, sent=%s, len(arg)=%s, chunked=%s puts %s bytes on the wire (required %s), sent becomes %s, chunk flag %s" % (
+                            rl, sent, n, ch, None if got is None else len(got), allowed, after, flags)
+                        if ch and allowed == 0 and sends:
+                            why += " -- an empty chunk would terminate the response prematurely"
+                        ctx.check(rid, okk, key(f_w, "write|cl=%s|sent=%s|n=%s|ch=%s" % (rl, sent, n, ch)),
+                                  site(f_w, text="write(len=%s) cl=%s sent=%s chunked=%s" % (n, rl, sent, ch)), why, "writes %s bytes" % allowed)
+    ctx.table(rid + " Response.write rows (sample)", wrows[:30])
+    ctx.count("write rows", len(wrows))
+
+
 def r1(ctx):
     repo = ctx.repo
     f_ic = ctx.fn(repo.func(RESP + ".is_chunked"))
@@ -241,42 +287,7 @@ def r1(ctx):
                 ctx.check("C02.R1", ("te-line" in o.events) == chunked, key(f_dh, "S4|te|%s" % chunked), site(f_dh, text="chunked=%s" % chunked),
                           "S4 violated: Transfer-Encoding: chunked line %s while chunked is %s" % ("present" if "te-line" in o.events else "absent", chunked),
                           "TE line iff chunked")
-    # ---- write() table: never exceed Content-Length, skip empty chunks, account bytes
-    K_SENT = "self.sent"
-    ARG = f_w.params[1]
-    wrows = []
-    for rl in (None, 0, 5, 10):
-        for sent in (0, 3, 5, 10, 12):
-            for n in (0, 1, 5, 20):
-                for ch in (False, True):
-                    if ch and rl is not None:
-                        continue
-                    payload = bytes(range(65, 65 + n))
-                    probes = {}
-                    for c, node in [(c, nd) for c in sends_w for nd in nodes_with(f_w, c)]:
-                        probes[node.id] = ("sent-bytes", (lambda ex, env, c=c: (ex.ev(_payload_arg(c), env), ex.ev(_chunk_arg(c), env))))
-                    ex = Explorer(f_w, atom_of=call_atom(repo, f_w), tracked=[K_SENT, ARG])
-                    outs = ex.run(f_w.cfg.entry, {K_CL: rl, K_SENT: sent, ARG: payload, K_CH: ch}, probes=probes)
-                    allowed = n if rl is None else min(n, max(rl - sent, 0))
-                    for o in outs:
-                        if o.kind != "return":
-                            continue
-                        sends = [e[1] for e in o.events if isinstance(e, tuple) and e[0] == "sent-bytes"]
-                        got = b"".join(x[0] for x in sends if isinstance(x, tuple) and isinstance(x[0], bytes)) if all(isinstance(x, tuple) and isinstance(x[0], bytes) for x in sends) else None
-                        flags = [x[1] for x in sends if isinstance(x, tuple)]
-                        after = o.env.get(K_SENT)
-                        okk = got is not None and got == payload[:allowed] and (not sends or not (ch and len(got) == 0)) and after == sent + allowed \
-                            and all(fl == ch for fl in flags)
-                        wrows.append({"content_length": rl, "sent_before": sent, "len(arg)": n, "chunked": ch, "bytes_sent": None if got is None else len(got),
-                                      "sent_after": after if after is not UNKNOWN else "U", "required_bytes": allowed})
-                        why = "Response.write with Content-Length=%s, sent=%s, len(arg)=%s, chunked=%s puts %s bytes on the wire (required %s), sent becomes %s, chunk flag %s" % (
-                            rl, sent, n, ch, None if got is None else len(got), allowed, after, flags)
-                        if ch and allowed == 0 and sends:
-                            why += " -- an empty chunk would terminate the response prematurely"
-                        ctx.check("C02.R1", okk, key(f_w, "write|cl=%s|sent=%s|n=%s|ch=%s" % (rl, sent, n, ch)),
-                                  site(f_w, text="write(len=%s) cl=%s sent=%s chunked=%s" % (n, rl, sent, ch)), why, "writes %s bytes" % allowed)
-    ctx.table("C02.R1 Response.write rows (sample)", wrows[:30])
-    ctx.count("write rows", len(wrows))
+    write_table(ctx, "C02.R1")
 
 
 def _connection_var(f):
